@@ -262,6 +262,46 @@ def _tracks_last_kept(cfg: CFG, func: ast.AST, loop: ast.For, prev: str, kept: s
     return True, f"{prev} starts as {kept}[-1] and is refreshed after each of {len(changes)} changes of the list"
 
 
+def _groups_are_components(ctx: Ctx, func: ast.AST) -> None:
+    """ the overlap groups of a gene's hits are the connected components of 'overlap by more than the threshold': a pair
+        that touches two existing groups unites them.  Structurally: the members of an existing group are, somewhere, added
+        to another set (X.update(group), X |= group, X.union(group)), or the grouping is delegated to a helper; a loop that
+        only ever adds the *pair* to the groups it touches leaves two groups sharing members """
+    pairs = [n for n in walk_local(func) if isinstance(n, ast.Set) and len(n.elts) == 2 and all(isinstance(e, ast.Name) for e in n.elts)]
+    if not pairs:
+        ctx.ob("R13.3", CP, func, "filter_results", "overlap groups are connected components", True,
+               "overlap groups are built by a helper", form="no pair-wise grouping in the function", vacuous=True)
+        return
+    pair_stmt = next(a for a in [pairs[0]] + list(_ancestors(pairs[0])) if isinstance(a, ast.stmt))
+    pair_name = txt(pair_stmt.targets[0]) if isinstance(pair_stmt, ast.Assign) else ""
+    # names that stand for an existing group: loop / comprehension variables over the list the pairs are appended to
+    lists = {txt(c.func.value) for c in calls(func) if last_attr(c) == "append" and c.args and txt(c.args[0]) == pair_name}
+    group_vars = set()
+    for node in ast.walk(func):
+        if isinstance(node, ast.For) and txt(node.iter) in lists:
+            group_vars.add(txt(node.target))
+        if isinstance(node, (ast.ListComp, ast.GeneratorExp, ast.SetComp)):
+            group_vars |= {txt(g.target) for g in node.generators if txt(g.iter) in lists}
+    united = []
+    for node in walk_local(func):
+        if isinstance(node, ast.Call) and last_attr(node) in ("update", "union") and node.args \
+                and any(isinstance(x, ast.Name) and x.id in group_vars for a in node.args for x in ast.walk(a)):
+            united.append(node)
+        if isinstance(node, ast.AugAssign) and isinstance(node.op, ast.BitOr) \
+                and any(isinstance(x, ast.Name) and x.id in group_vars for x in ast.walk(node.value)):
+            united.append(node)
+        if isinstance(node, ast.BinOp) and isinstance(node.op, ast.BitOr) \
+                and any(isinstance(x, ast.Name) and x.id in group_vars for x in ast.walk(node)):
+            united.append(node)
+    ok = bool(lists) and bool(group_vars) and bool(united)
+    ctx.ob("R13.3", CP, pair_stmt, "filter_results", "overlap groups are connected components", ok,
+           "a pair of overlapping hits that touches two existing groups unites them, so no hit is in two groups",
+           detail="" if ok else "the pair is added to every group it touches but the groups are never united: hits p1[0:100) s50, "
+           "p1[250:350) s40, p2[70:200) s10, p3[170:280) s20 (in this order) leave two groups sharing members, the second is "
+           "emptied by the first one's removals and `members[0]` raises IndexError",
+           form="; ".join(txt(u)[:50] for u in united))
+
+
 def r13_4_5(ctx: Ctx) -> None:
     from ..flow import compares_at, key_function, oriented
     func = ctx.fn(CP, "filter_result_multiple")
@@ -322,6 +362,7 @@ def r13_4_5(ctx: Ctx) -> None:
            "the survivors are put back in their original order by sorting (index, hit) pairs, the unique index leading", form="")
     # R13.3 best-of-group does not start from an arbitrary set element
     func = ctx.fn(CP, "filter_results")
+    _groups_are_components(ctx, func)
     firsts = [n for n in walk_local(func) if isinstance(n, ast.Subscript) and isinstance(n.value, ast.Call)
               and call_name(n.value) in ("list", "tuple") and txt(n.value.args[0]) == "group"]
     pops = [c for c in calls(func) if last_attr(c) == "pop" and txt(c.func.value) == "group"]  # type: ignore
